@@ -45,20 +45,20 @@ type OracleFailure struct {
 }
 
 type Summary struct {
-	Stream        string          `json:"stream"`
-	Seed          int64           `json:"seed"`
-	Evaluations   int             `json:"evaluations"`
-	Distinct      int             `json:"distinct_nontrivial"`
-	Rule          string          `json:"rule"`
-	Dist          map[string]int  `json:"distribution"`
-	Samples       []string        `json:"samples"`
-	Disagreements []Disagreement  `json:"disagreements"`
-	OracleFails   []OracleFailure `json:"oracle_failures"`
-	ModelErrors   int             `json:"model_errors"`
-	TotalDisagreements int        `json:"total_disagreements"`
-	Crashes       int             `json:"worker_crashes"`
-	WallS         float64         `json:"wall_s"`
-	Exhaustive    bool            `json:"exhaustive"`
+	Stream             string          `json:"stream"`
+	Seed               int64           `json:"seed"`
+	Evaluations        int             `json:"evaluations"`
+	Distinct           int             `json:"distinct_nontrivial"`
+	Rule               string          `json:"rule"`
+	Dist               map[string]int  `json:"distribution"`
+	Samples            []string        `json:"samples"`
+	Disagreements      []Disagreement  `json:"disagreements"`
+	OracleFails        []OracleFailure `json:"oracle_failures"`
+	ModelErrors        int             `json:"model_errors"`
+	TotalDisagreements int             `json:"total_disagreements"`
+	Crashes            int             `json:"worker_crashes"`
+	WallS              float64         `json:"wall_s"`
+	Exhaustive         bool            `json:"exhaustive"`
 }
 
 type Stream struct {
@@ -106,8 +106,34 @@ func runModel(modelBin string, reqs []string) ([]string, error) {
 // a progress file first.  When the worker dies, the parent records the announced item as a
 // `process-crash` oracle failure and restarts the worker with that item skipped.
 
-// hangTimeout: a guarded item that shows no progress for this long is killed and reported.
+// hangTimeout: a guarded item is killed and reported when the worker has burnt this much CPU
+// time on it without finishing (a busy loop), or when it shows no progress for blockedTimeout of
+// wall time (a blocked call).  CPU time, not wall time, so that a loaded machine (twenty checks
+// running side by side) cannot turn a slow but finite evaluation into a false alarm.
 var hangTimeout = 45 * time.Second
+var blockedTimeout = 6 * time.Minute
+
+// procCPU: user+system time consumed so far by process pid (Linux /proc), ok=false if unknown
+func procCPU(pid int) (time.Duration, bool) {
+	b, err := os.ReadFile(fmt.Sprintf("/proc/%d/stat", pid))
+	if err != nil {
+		return 0, false
+	}
+	// fields after the command name in parentheses: state is field 3, utime 14, stime 15
+	s := string(b)
+	i := strings.LastIndexByte(s, ')')
+	if i < 0 {
+		return 0, false
+	}
+	f := strings.Fields(s[i+1:])
+	if len(f) < 13 {
+		return 0, false
+	}
+	var ut, st int64
+	fmt.Sscanf(f[11], "%d", &ut)
+	fmt.Sscanf(f[12], "%d", &st)
+	return time.Duration(ut+st) * (time.Second / 100), true // USER_HZ = 100
+}
 
 var (
 	guardSkip     = map[int]bool{}
@@ -157,7 +183,7 @@ var guardLastSkippedHung bool
 func crashCase(human string) Case {
 	what := "the process was killed by a fatal fault (e.g. a mis-typed memory access, stack exhaustion) while this input was evaluated"
 	if guardLastSkippedHung {
-		what = fmt.Sprintf("no answer within %v while this input was evaluated (the worker process was killed)", hangTimeout)
+		what = fmt.Sprintf("no answer within %v of CPU time (or %v blocked) while this input was evaluated (the worker process was killed)", hangTimeout, blockedTimeout)
 	}
 	return Case{Human: human, Want: "process-crash", Tags: []string{"process-crash"}, Nontriv: true, Oracle: what, OracleID: "process-crash"}
 }
@@ -230,6 +256,7 @@ func generateIsolated(s *Stream, seed int64, n int, thorough bool) ([]Case, int,
 			done := make(chan error, 1)
 			go func() { done <- cmd.Wait() }()
 			lastSize, lastChange := int64(-1), time.Now()
+			cpuAtChange, _ := procCPU(cmd.Process.Pid)
 			tick := time.NewTicker(500 * time.Millisecond)
 			defer tick.Stop()
 			for {
@@ -237,11 +264,17 @@ func generateIsolated(s *Stream, seed int64, n int, thorough bool) ([]Case, int,
 				case e := <-done:
 					return e
 				case <-tick.C:
+					cpu, cpuOK := procCPU(cmd.Process.Pid)
 					if st, e := os.Stat(progress); e == nil && st.Size() != lastSize {
 						lastSize, lastChange = st.Size(), time.Now()
+						cpuAtChange = cpu
 					}
-					// an item that makes no progress for this long is treated as a hang
-					if time.Since(lastChange) > hangTimeout {
+					// an item that burns CPU this long without finishing, or is blocked, is a hang
+					busy := cpuOK && cpu-cpuAtChange > hangTimeout
+					if !cpuOK {
+						busy = time.Since(lastChange) > hangTimeout
+					}
+					if busy || time.Since(lastChange) > blockedTimeout {
 						hung = true
 						cmd.Process.Kill()
 					}
